@@ -21,6 +21,8 @@ pub struct Options {
     pub verif_dir: PathBuf,
     pub write_evidence: bool,
     pub only_run: Option<u64>,
+    /// keep searching after a batch with a violating run (statistics over the whole tier)
+    pub exhaust: bool,
 }
 
 static OUT: Mutex<Option<std::fs::File>> = Mutex::new(None);
@@ -605,6 +607,14 @@ pub fn check<P: Property>(p: &P, opt: &Options) -> i32 {
                 }
             }
         });
+        // Runs are handed out in fixed batches with a barrier after each; the search stops after
+        // the first batch that contains a violating run. Batch boundaries are fixed, so which runs
+        // were executed (and the lowest violating index) does not depend on thread timing.
+        let batch: u64 = 2_000;
+        let mut batch_start = 0u64;
+        while batch_start < total {
+        let batch_end = (batch_start + batch).min(total);
+        counter.store(batch_start, Ordering::Relaxed);
         let mut handles = Vec::new();
         for w in 0..opt.workers {
             let counter = &counter;
@@ -628,7 +638,7 @@ pub fn check<P: Property>(p: &P, opt: &Options) -> i32 {
                 };
                 loop {
                     let i = counter.fetch_add(1, Ordering::Relaxed);
-                    if i >= total {
+                    if i >= batch_end {
                         break;
                     }
                     inflight.lock().unwrap().insert(w, (i, Instant::now()));
@@ -647,6 +657,21 @@ pub fn check<P: Property>(p: &P, opt: &Options) -> i32 {
                     std::process::exit(2);
                 }
             }
+        }
+        // stop unless every violation of this batch is (on the unminimised scenario) a listed
+        // open finding; the binding match is made later on the minimised scenario
+        let unlisted = acc.violating.range(batch_start..batch_end).any(|(_, found)| {
+            found.violations.iter().any(|v| {
+                let fps = p.fingerprints(&found.scenario, v);
+                !known.findings.iter().any(|k| {
+                    k.status == "open" && k.property == p.id() && k.class == v.class && k.operation == v.operation && fps.contains(&k.fingerprint)
+                })
+            })
+        });
+        batch_start = batch_end;
+        if unlisted && !opt.exhaust {
+            break;
+        }
         }
         done.store(true, Ordering::Relaxed);
     });
